@@ -40,7 +40,7 @@ type ParamInfo struct {
 func newGen(ld *Loader, cs *ContractSet, fn *ssa.Function, c *Contract) *Gen {
 	g := &Gen{ld: ld, cs: cs, sorts: newSorts(), keys: map[string]KeyInfo{}, loopMods: map[string]map[string]bool{}, loopAll: map[string]bool{},
 		declared: map[string]bool{}, rootFn: fn, rootC: c, notes: map[string]bool{}, trusted: map[string]bool{}, globals: map[string]string{},
-		funcIDs: map[string]int{}, boxAx: map[string]bool{}, ufs: map[string]ufDecl{}, ordinals: map[string]int{}}
+		funcIDs: map[string]int{}, boxAx: map[string]bool{}, ufs: map[string]ufDecl{}, ordinals: map[string]int{}, obNames: map[string]int{}}
 	g.regKey("$alloc", "Int", "alloc")
 	return g
 }
@@ -214,7 +214,30 @@ func (fc *FnCtx) frameObligations(entry, exit *State, env *Env, c *Contract) {
 	}
 }
 
-func (g *Gen) registerAxioms() {}
+func (g *Gen) registerAxioms() {
+	var names []string
+	for n := range g.cs.UFuncs {
+		names = append(names, n)
+	}
+	sort.Strings(names)
+	for _, n := range names {
+		uf := g.cs.UFuncs[n]
+		smt := "|uf!" + n + "|"
+		g.declareFun(smt, uf.Sig)
+		var ret Val
+		switch uf.Ret {
+		case "Int":
+			ret = Val{ty: tMath}
+		case "Bool":
+			ret = Val{ty: tBool}
+		case "String":
+			ret = Val{ty: tString}
+		default:
+			ret = Val{gk: "sort", gs: uf.Ret}
+		}
+		g.ufs[n] = ufDecl{smt: smt, ret: ret}
+	}
+}
 
 // stubs for extension points -----------------------------------------------------
 
